@@ -13,7 +13,7 @@ EXTRA = {"C01_1": ["C13"], "C02_2": ["C15"], "C05_1": ["C06"], "C05_2": ["C16"],
          "C01_11": ["C16"], "C01_12": ["C12"], "C02_11": ["C16"], "C02_12": ["C16"], "C03_11": ["C16"], "C03_12": ["C18"], "C04_12": ["C10"],
          "C05_12": ["C16"], "C09_11": ["C14", "C13"], "C10_11": ["C04"], "C20_12": ["C13"],
          "C01_13": ["C09", "C06"], "C03_14": ["C18"], "C04_13": ["C12"], "C04_14": ["C09"],
-         "C01_14": ["C06"], "C03_15": ["C16"], "C04_15": ["C11"], "C10_13": ["C04"], "C11_13": ["C12"]}
+         "C01_14": ["C06"], "C03_15": ["C16"], "C04_15": ["C11"], "C10_13": ["C04"], "C11_13": ["C12"], "C05_15": ["C16"]}
 only = None
 tier = "quick"
 for i, a in enumerate(sys.argv):
